@@ -191,6 +191,11 @@ type ConverterGenFunc func(Value) (*Func, error)
 func ConverterGen(fs ...ConverterGenFunc) Arg {
 	return func(a *argBuilder) error {
 		for _, f := range fs {
+			// A nil generator generates nothing.
+			if f == nil {
+				continue
+			}
+
 			a.convGens = append(a.convGens, f)
 		}
 		return nil
